@@ -331,7 +331,10 @@ func c20Stats(nsh, bound int) *explore.Scenario {
 			}
 			var plan []outcome
 			for _, k := range []string{"Unary", "Bidi", "SStream", "CStream"} {
-				for _, o := range []string{"ok", "herr", "cancel1", "cancel3", "deadline", "openfail"} {
+				for _, o := range []string{"ok", "herr", "cancel1", "cancel3", "deadline", "openfail", "reset", "lateempty", "sendfail"} {
+					if k == "Unary" && (o == "reset" || o == "lateempty" || o == "sendfail") {
+						continue
+					}
 					if bound > 0 && (k == "SStream" || k == "CStream" || (k == "Unary" && o != "cancel1" && o != "ok")) {
 						continue
 					}
